@@ -36,8 +36,11 @@ def big_graph(n_classes):
 @st.composite
 def cases(draw, tier):
     size = draw(st.sampled_from(["small"] * 38 + ["big1", "big2"]))
+    via_rdflib = size == "small" and draw(st.integers(0, 4)) == 0
     if size == "small":
-        g = draw(gg.general(unicode_iris=draw(st.integers(0, 3)) == 0, quirks=draw(gg.quirk_set(one_in=4))))
+        # (an in-memory rdflib Graph can hold what the line-based readers never produce: literals with real line breaks)
+        g = draw(gg.general(unicode_iris=draw(st.integers(0, 3)) == 0, quirks=draw(gg.quirk_set(one_in=4)), bnodes=not via_rdflib,
+                            lit_kinds=(gg.LIT_KINDS + ["multiline", "multiline"]) if via_rdflib else None))
     else:
         g = {"big": 800 if size == "big1" else 1500}
     cfg = {}
@@ -62,7 +65,14 @@ def cases(draw, tier):
     if size != "small":
         # the 5 000-line flush belongs to the ShExC serializer; SHACL graphs of that size make the isomorphism oracle too slow
         ops = [[o[0], "ShEx", o[2], o[3]] if o[0] == "shex" else o for o in ops if o[0] != "profile"] or [["shex", "ShEx", "file", 0]]
+    if via_rdflib and draw(st.booleans()):
+        # the same call made twice, with examples: annotations are added to the cached shapes by the serializer
+        cfg["examples_mode"] = draw(st.sampled_from(["cons", "all"]))
+        first = next((o for o in ops if o[0] == "shex"), ["shex", "ShEx", "string", 0])
+        ops = (ops + [list(first)])[-3:] if first in ops else [list(first), list(first)]
     case = {"g": g, "cfg": cfg, "ns": ns, "ops": ops}
+    if via_rdflib:
+        case["via_rdflib"] = True
     if draw(st.booleans()):
         case["same_path"] = True        # every call of the history writes to the same file (a later document replaces an earlier one)
     if draw(st.integers(0, 3)) == 0:
@@ -109,7 +119,11 @@ def make_kwargs(case, ns_obj, shared=None):
     if "big" in g:
         g = big_graph(g["big"])
     triples = triples_from_json(g["triples"])
-    kw = dict(raw_graph=to_nt(triples))
+    if case.get("via_rdflib"):
+        from ..rdfmodel import to_rdflib
+        kw = dict(rdflib_graph=to_rdflib(triples))        # a fresh Graph object per Shaper
+    else:
+        kw = dict(raw_graph=to_nt(triples))
     if case.get("sm_items"):
         from .. import selectors
         from . import c10
@@ -148,7 +162,7 @@ def do_call(shaper, op, d, tag, stale=None):
     res = shaper.shex_graph(**skw) if op[0] == "shex" else shaper.profile_graph(**skw)
     ftext = None
     if os.path.exists(path):
-        with open(path, encoding="utf-8") as f:
+        with open(path, encoding="utf-8", newline="") as f:
             ftext = f.read()
     return res, ftext
 
@@ -184,6 +198,8 @@ def check(case):
         labels.add("second-shaper")
     if case.get("sm_items"):
         labels.add("shape-map")
+    if case.get("via_rdflib"):
+        labels.add("rdflib-graph")
     if len(calls) >= 2:
         labels.add("repeated-calls")
     if case.get("same_path") and sum(1 for o in calls if (o[2] if o[0] == "shex" else o[1]) in ("file", "both")) >= 2:
